@@ -511,6 +511,10 @@ func (h *Harness) Step(a Action) []Mismatch {
 			f := service.OnPublishFunc(func(msg *message.PublishMessage) error {
 				h.localGot[name] = append(h.localGot[name], &refcodec.Packet{Type: refcodec.PUBLISH, Topic: append([]byte(nil), msg.Topic()...),
 					Payload: append([]byte(nil), msg.Payload()...), QoS: msg.QoS(), Retain: msg.Retain(), ID: 1})
+				if strings.HasPrefix(name, "E") {
+					// an application callback that fails: its business, nobody else's
+					return fmt.Errorf("callback of %s failed", name)
+				}
 				return nil
 			})
 			fn = &f
